@@ -39,15 +39,64 @@ def rule_builder_shape(ctx):
     need("dbg:struct:fmt-field", "derive_more::core::fmt::DebugStruct::field(#out,#field_str,&derive_more::core::format_args!(#fmt_attr,#(#deref_args),*),)" in tt, "a named field with `#[debug(\"..\")]` is no longer `field(_, name, &format_args!(..))`")
     need("dbg:struct:finish", "derive_more::core::fmt::DebugStruct::finish(#out)" in tt and "derive_more::core::fmt::DebugStruct::finish_non_exhaustive(#out)" in tt, "struct finishers changed")
     # declaration order and skip handling: a fold over the fields in order, `exhaustive` cleared exactly by Skip
-    need("dbg:tuple:order", "unnamed.unnamed.iter().enumerate().try_fold(out,|out,(i,field)|" in t and 'let ident=format_ident!("_{i}")' in t, "positional fields are no longer folded in declaration order under their binder `_{i}`", {})
-    need("dbg:struct:order", "named.named.iter().try_fold(out,|out,field|" in t, "named fields are no longer folded in declaration order", {})
-    n_skip = len(re.findall(r"Some\(FieldAttribute::Left\(_skip\)\)=>\{exhaustive=false;Ok(?:::<_,syn::Error>)?\(out\)\}", t))
-    need("dbg:skip", n_skip == 2 and t.count("exhaustive=false") == 2 and t.count("let mut exhaustive=true") == 2, "`exhaustive` is no longer cleared exactly by a skipped field (and only then)", {"skip_arms": n_skip})
+    folds = _exhaustive_folds(fn)
+    need("dbg:tuple:order", any(f_["over"] == "unnamed.unnamed.iter().enumerate()" for f_ in folds) and 'let ident=format_ident!("_{}",i)' in t, "positional fields are no longer folded in declaration order under their binder `_{i}`", {})
+    need("dbg:struct:order", any(f_["over"] == "named.named.iter()" for f_ in folds), "named fields are no longer folded in declaration order", {})
+    # the flag starts `true`, a skipped field clears it, every other field leaves it alone - whether it is a captured
+    # `let mut` or the second component of the fold's accumulator
+    ok_skip = len(folds) == 2 and all(f_["init"] == "true" and f_["arms"] and all((eff == "false") == ("FieldAttribute::Left" in pat and "Some" in pat) and eff in ("false", "same") for pat, eff in f_["arms"]) and any(eff == "false" for _p, eff in f_["arms"]) for f_ in folds)
+    need("dbg:skip", ok_skip, "`exhaustive` is no longer cleared exactly by a skipped field (and only then)", {"folds": [{k_: v_ for k_, v_ in f_.items()} for f_ in folds]})
     fin = re.findall(r"Ok\(if exhaustive\{quote!\(([^)]*::)finish\(#out\)\)\}else \{quote!\(\1finish_non_exhaustive\(#out\)\)\}\)", t)
     need("dbg:finisher-choice", len(fin) == 2, "`finish()` is no longer chosen iff no field was skipped (else `finish_non_exhaustive()`): the `..` marker appears / disappears wrongly", {"found": fin})
     need("dbg:field-name", "let field_str=field_ident.unraw().to_string()" in t and t.index("let field_str=field_ident.unraw().to_string()") < t.index("match FieldAttribute::parse_attrs(&field.attrs,self.attr_name)?", t.index("named.named.iter()")), "the printed field name is no longer the un-raw identifier computed once for all three field arms", {})
     # container attribute first
     need("dbg:container-attr", t.startswith("if let Some(fmt)=&self.attr.fmt{return Ok(if let Some((expr,trait_ident))=fmt.transparent_call_on_fields(self.fields){"), "a container-level format is no longer handled before (and instead of) the builders", {})
+
+
+def _exhaustive_folds(fn):
+    """the `try_fold`s over the fields of `generate_body`: what they iterate, how the exhaustiveness flag starts and what
+    each arm of the per-field `match` does to it ("false" / "true" / "same"), for both representations of the flag"""
+    out = []
+    for mc, ps in A.method_calls(fn.block, "try_fold"):
+        if len(mc["args"]) != 2 or A.kind(mc["args"][1]) != "Expr::Closure":
+            continue
+        cl = mc["args"][1]
+        init = A.peel(mc["args"][0])
+        acc_pat = cl["inputs"][0] if cl["inputs"] else None
+        flag = None  # name of the accumulator component carrying the flag
+        init_v = None
+        if A.kind(init) == "Expr::Tuple" and len(init["elems"]) == 2 and acc_pat is not None and A.kind(acc_pat) == "Pat::Tuple" and len(acc_pat["elems"]) == 2:
+            ids = A.pat_idents(acc_pat["elems"][1])
+            flag = ids[0] if len(ids) == 1 else None
+            init_v = A.render(init["elems"][1])
+        else:
+            # a captured `let mut <flag> = true;` declared just before the fold
+            blk = next((p for p in reversed(ps) if A.kind(p) == "Block"), None)
+            for st in blk["stmts"] if blk else []:
+                if A.kind(st) == "Stmt::Local" and st.get("init") and A.render(st["init"]["expr"]) in ("true", "false") and A.kind(st["pat"]) == "Pat::Ident" and st["pat"].get("mutability"):
+                    nm = st["pat"]["ident"]["sym"]
+                    if any(A.kind(x) == "Expr::Assign" and A.render(x["left"]) == nm for x, _ in A.walk(cl["body"])):
+                        flag, init_v = nm, A.render(st["init"]["expr"])
+        mt = next((m for m, _ in A.find(cl["body"], "Expr::Match")), None)
+        arms = []
+        if mt is not None and flag is not None:
+            for arm in mt["arms"]:
+                eff = "same"
+                assigns = [A.render(x["right"]) for x, _ in A.walk(arm["body"]) if A.kind(x) == "Expr::Assign" and A.render(x["left"]) == flag]
+                if assigns:
+                    eff = assigns[-1]
+                elif A.kind(init) == "Expr::Tuple":
+                    # the tuple the arm returns: Ok((out, <flag value>))
+                    rets = [x for x, _ in A.walk(arm["body"]) if A.kind(x) == "Expr::Call" and (A.path_str(x["func"]) or "").split("::")[0] == "Ok" and x["args"] and A.kind(A.peel(x["args"][0])) == "Expr::Tuple" and len(A.peel(x["args"][0])["elems"]) == 2]
+                    vals = {A.render(A.peel(r["args"][0])["elems"][1]) for r in rets}
+                    if len(vals) != 1:
+                        eff = "?"
+                    else:
+                        v = vals.pop()
+                        eff = "same" if v == flag else v
+                arms.append((A.render_pat(arm["pat"]), eff))
+        out.append({"over": A.render(mc["receiver"]), "init": init_v, "flag": flag, "arms": arms})
+    return out
 
 
 def _core_builders():
@@ -148,13 +197,34 @@ def rule_debug_tuple_sibling(ctx):
     if dq in df and len(cqs) == 1:
         try:
             diffs = []
-            for on in (True, False):
+            # bisimulation from the constructors' initial states: whatever represents "at the start of a line" (a bool,
+            # an enum ..), both adapters must write the same for every sequence of pieces
+            d_fns = {fn.name: fn for fn in A.functions(lib) if fn.qual.startswith("Padded::")}
+            c_fns = {fn.name: fn for fn in A.functions(core) if fn.qual.startswith("PadAdapter::")}
+            d_all = {fn.qual: fn for fn in A.functions(lib) if fn.block is not None and fn.qual.count("::") == 1}
+            c_all = {fn.qual: fn for fn in A.functions(core) if fn.block is not None and fn.qual.count("::") == 1}
+            d0 = X.adapter_state_field(df, "Padded::") or ("on_newline", True)
+            c0 = ("on_newline", True)
+            it_d = X.loop_body(df[dq])[0]
+            it_c = X.loop_body(cf[cqs[0]])[0]
+            seen, work = set(), [(d0[1], c0[1])]
+            while work:
+                sd_, sc_ = work.pop()
+                if (str(sd_), str(sc_)) in seen:
+                    continue
+                seen.add((str(sd_), str(sc_)))
                 for nl in (True, False):
-                    a = X.run_loop_body(df[dq], {fn.name: fn for fn in A.functions(lib) if fn.qual.startswith("Padded::")}, on, nl)
-                    b = X.run_loop_body(cf[cqs[0]], {fn.name: fn for fn in A.functions(core) if fn.qual.startswith("PadAdapter::")}, on, nl)
-                    ctx.instance(f"sibexec:pad-adapter:on_newline={on},piece_ends_newline={nl}", sample={"trace": [str(t) for t in a[1]]})
-                    if A.alpha(a[0]) != A.alpha(b[0]) or a[1:] != b[1:]:
-                        diffs.append(((on, nl), a, b))
+                    ta, na = X.step_loop_body(df[dq], d_fns, d_all, d0[0], sd_, nl)
+                    tb, nb = X.step_loop_body(cf[cqs[0]], c_fns, c_all, c0[0], sc_, nl)
+                    ctx.instance(f"sibexec:pad-adapter:state={sc_},piece_ends_newline={nl}", sample={"trace": [str(t) for t in ta], "next": str(na)})
+                    if ta != tb:
+                        diffs.append(((sc_, nl), (it_d, ta, na), (it_c, tb, nb)))
+                    else:
+                        work.append((na, nb))
+                if len(seen) > 16:
+                    raise X.Unsupported("adapter state space does not close")
+            if A.alpha(it_d) != A.alpha(it_c):
+                diffs.append(((None, None), (it_d, [], None), (it_c, [], None)))
             # and nothing but the loop and `Ok(())`
             rest = [A.render_stmt(x) for x in df[dq].block["stmts"]]
             tail_ok = rest and rest[-1] in ("Ok(())",) or (len(rest) == 1 and "try_for_each" in rest[0])
